@@ -40,16 +40,19 @@ WHAT = {
 }
 
 
-def parallel(cx, jobs):
-    """jobs: list of callables returning a TLCResult; run concurrently, fail as Inconclusive."""
+def parallel(cx, jobs, width):
+    """jobs: list of callables returning a TLCResult; at most `width` run side by side (memory), failures are Inconclusive."""
     results = [None] * len(jobs)
     errors = []
+    gate = threading.Semaphore(width)
 
     def work(k):
-        try:
-            results[k] = jobs[k]()
-        except Exception as e:  # noqa
-            errors.append(e)
+        with gate:
+            try:
+                if not errors:
+                    results[k] = jobs[k]()
+            except Exception as e:  # noqa
+                errors.append(e)
     ths = [threading.Thread(target=work, args=(k,)) for k in range(len(jobs))]
     for t in ths:
         t.start()
@@ -60,14 +63,14 @@ def parallel(cx, jobs):
     return results
 
 
-def enumerate_cases(cx, depth, mdepth, nshards):
+def enumerate_cases(cx, depth, mdepth, nshards, width):
     """Legs M + G: the laws are invariants, the cases are printed by the Emit invariant."""
     def job(k):
         cfg = ("CONSTANT Depth = %d\nCONSTANT MDepth = %d\nCONSTANT Shard = %d\nCONSTANT NShards = %d\n"
                "INIT Init\nNEXT Next\nINVARIANT LawRoundTrip\nINVARIANT LawFieldWrite\nINVARIANT LawMethodArgs\n"
                "INVARIANT LawLiteral\nINVARIANT Emit\nCHECK_DEADLOCK FALSE\n" % (depth, mdepth, k, nshards))
-        return lambda: cx.tlc("BoundaryMC", cfg_text=cfg, workers=1, name="mc_%d" % k, heap="3g", timeout=1500, env=JVM)
-    results = parallel(cx, [job(k) for k in range(nshards)])
+        return lambda: cx.tlc("BoundaryMC", cfg_text=cfg, workers=1, name="mc_%d" % k, heap="2g", timeout=1500, env=JVM)
+    results = parallel(cx, [job(k) for k in range(nshards)], width)
     cases = []
     for r in results:
         if r.invariant_violated:
@@ -76,19 +79,21 @@ def enumerate_cases(cx, depth, mdepth, nshards):
         cx.tlc_must_pass(r, "BoundaryMC")
         for s in r.tuples("CASE"):
             cases.append(json.loads(s))
-    cases.sort(key=lambda c: (len(c["t"]), c["t"], c["c"], c["r"]))
+        r.out, r.lines = "", []
+    cases.sort(key=lambda c: (len(c["t"]), c["t"], c["c"], c["r"], json.dumps(c["w"], sort_keys=True)))
     for i, c in enumerate(cases):
         c["id"] = i + 1
     return cases
 
 
-def judge(cx, obs, prefix, nshards):
-    """BoundaryCheck over observation rows; returns {id: (tag, what)} for every non-conforming row."""
-    rows = [{k: o[k] for k in ("id", "t", "c", "r", "w", "k", "script", "back", "back_k", "typeok", "calls")} for o in obs]
-    paths = langlib.shard_cases(cx, rows, nshards, prefix)
+JUDGED = ("id", "t", "c", "r", "w", "k", "script", "back", "back_k", "typeok", "calls")
+
+
+def judge_files(cx, paths, prefix, width):
+    """BoundaryCheck over shard files of observation rows; {id: (tag, what)} for every non-conforming row."""
     results = parallel(cx, [
         (lambda p=p, k=k: cx.tlc("BoundaryCheck", env=dict(JVM, VERIF_OBS=p), workers=1, name="%s_%d" % (prefix, k),
-                                 heap="3g", timeout=1500)) for k, p in enumerate(paths)])
+                                 heap="2g", timeout=1500)) for k, p in enumerate(paths)], width)
     out = {}
     for r in results:
         cx.tlc_must_pass(r, "BoundaryCheck")
@@ -99,14 +104,24 @@ def judge(cx, obs, prefix, nshards):
     return out
 
 
-def drive(cx, drv, cases, name):
+def judge(cx, obs, prefix, nshards, width):
+    rows = [{k: o[k] for k in JUDGED} for o in obs]
+    return judge_files(cx, langlib.shard_cases(cx, rows, nshards, prefix), prefix, width)
+
+
+def drive(cx, drv, cases, name, jobs=None):
+    """Run the cases on the real boundary; returns the path of the observation file (one JSON line per case)."""
     inp, outp = cx.path(name + "_cases.ndjson"), cx.path(name + "_obs.ndjson")
     vlib.write_ndjson(inp, cases)
-    cx.run([drv, "run", "-in", inp, "-out", outp, "-j", str(min(vlib.NCPU, 16))], timeout=1500)
-    obs = vlib.read_ndjson(outp)
-    if len(obs) != len(cases):
-        raise vlib.Inconclusive("driver answered %d of %d cases" % (len(obs), len(cases)))
-    return obs
+    cx.run([drv, "run", "-in", inp, "-out", outp, "-j", str(jobs or min(vlib.NCPU, 16))], timeout=1500)
+    return outp
+
+
+def each(path):
+    with open(path) as f:
+        for ln in f:
+            if ln.strip():
+                yield json.loads(ln)
 
 
 def nontrivial(t):
@@ -177,13 +192,14 @@ def run(cx):
         drv = os.environ["VERIF_C08_DRIVER"]
         cx.notes.append("driver overridden by VERIF_C08_DRIVER=%s (not the current /repo tree)" % drv)
     nsh = min(vlib.NCPU, 12)
+    width = min(vlib.NCPU, 12) if cx.quick() else min(vlib.NCPU, 8)   # TLC processes side by side (memory)
     depth, mdepth = (2, 1) if cx.quick() else (3, 2)
     nrandom = 4000 if cx.quick() else 60000
 
     # ---- M + G: laws on the spec, cases for the driver
-    cases = enumerate_cases(cx, depth, mdepth, nsh)
+    cases = enumerate_cases(cx, depth, mdepth, nsh, width)
     ntypes = len(set(tuple(c["t"]) for c in cases))
-    npairs = len(set((tuple(c["t"]), c["c"]) for c in cases))
+    npairs = len(set((tuple(c["t"]), c["c"]) for c in cases if c["r"] != "write_lit"))
     cx.log("algebra depth %d: %d types, %d (type, class) pairs satisfy the laws, %d cases" % (
         depth, ntypes, npairs, len(cases)))
 
@@ -203,32 +219,67 @@ def run(cx):
         w.setdefault("w", {"t": "na", "s": "", "k": [], "c": []})
         w["id"] = base + len(rnd) + 1 + k
         wit.append(w)
+    witness_ids = set(w["id"] for w in wit)
 
     allcases = cases + rnd + wit
-    obs = drive(cx, drv, allcases, "all")
-    by_id = {o["id"]: o for o in obs}
+    ncases, nenum, nrnd = len(allcases), len(cases), len(rnd)
+    case_of = {c["id"]: c for c in allcases}
+    obs_path = drive(cx, drv, allcases, "all")
+    del allcases, cases, rnd
 
-    # ---- binding self-test: a corrupted observation must be flagged (DESIGN 8.4)
-    probes = []
-    for o in obs:
-        if o["k"] == "ok" and o["r"] == "field_read" and o["script"]["t"] in ("int", "float", "str") and len(probes) < 3:
-            p = json.loads(json.dumps(o))
+    # ---- one streaming pass: shard files for TLC, statistics, self-test probes; a case whose worker hung or
+    # died is performed once more on its own before it counts
+    retry = [o["id"] for o in each(obs_path) if o["k"] in ("hang", "nostart", "badresp", "crash")]
+    redone = {}
+    if retry:
+        cx.notes.append("%d cases hung or lost their worker and were performed again one by one" % len(retry))
+        for o in each(drive(cx, drv, [case_of[i] for i in retry], "retry", jobs=2)):
+            redone[o["id"]] = o
+    nshards = nsh if cx.quick() else 3 * nsh
+    shard_paths = [cx.path("obs.shard%d.ndjson" % k) for k in range(nshards)]
+    shards = [open(p, "w") for p in shard_paths]
+    outcomes, triples, samples, probes, n = {}, set(), [], [], 0
+    for o in each(obs_path):
+        o = redone.get(o["id"], o)
+        shards[n % nshards].write(json.dumps({k: o[k] for k in JUDGED}, separators=(",", ":")) + "\n")
+        n += 1
+        if o["id"] in witness_ids:
+            continue
+        outcomes[o["k"]] = outcomes.get(o["k"], 0) + 1
+        triples.add((" ".join(o["t"]), o["c"] if o["r"] != "write_lit" else json.dumps(o["w"], sort_keys=True), o["r"]))
+        if n % max(1, ncases // 6) == 1:
+            samples.append({"t": o["t"], "c": o["c"], "r": o["r"], "k": o["k"], "script": json.dumps(o["script"])[:200]})
+        # binding self-test: a corrupted observation must be flagged (DESIGN 8.4)
+        if len(probes) < 3 and o["k"] == "ok" and o["r"] == "field_read" and o["script"]["t"] in ("int", "float", "str"):
+            p = json.loads(json.dumps({k: o[k] for k in JUDGED}))
             p["id"] = -len(probes) - 1
             p["script"]["s"] = p["script"]["s"] + "1"
             probes.append(p)
-    verdicts = judge(cx, obs + probes, "obs", nsh)
+            shards[0].write(json.dumps(p, separators=(",", ":")) + "\n")
+    for f in shards:
+        f.close()
+    if n != ncases:
+        raise vlib.Inconclusive("driver answered %d of %d cases" % (n, ncases))
+    if len(probes) < 3:
+        raise vlib.Inconclusive("self-test: no scalar field_read observation to corrupt")
+    verdicts = judge_files(cx, shard_paths, "obs", width)
     for p in probes:
         if verdicts.get(p["id"], ("", ""))[0] != "MISMATCH":
             raise vlib.Inconclusive("self-test: a corrupted observation was not flagged by BoundaryCheck")
-    if len(probes) < 3:
-        raise vlib.Inconclusive("self-test: no scalar field_read observation to corrupt")
+
+    # ---- second pass: only the observations TLC flagged are kept
+    flagged = set(i for i in verdicts if i > 0)
+    by_id = {}
+    for o in each(obs_path):
+        if o["id"] in flagged:
+            by_id[o["id"]] = redone.get(o["id"], o)
 
     # ---- classify
     harness = [(i, w) for i, (tag, w) in verdicts.items() if tag == "HARNESS" and i > 0]
     if harness:
         i, w = harness[0]
         raise vlib.Inconclusive("driver could not perform %d cases, e.g. %s: %s %s" % (
-            len(harness), w, json.dumps({k: by_id[i][k] for k in ("t", "c", "r")}), by_id[i].get("msg", "")[:300]))
+            len(harness), w, json.dumps({k: by_id[i][k] for k in ("t", "c", "r")}), str(by_id[i].get("msg"))[:300]))
     soft = {}
     for i, (tag, w) in verdicts.items():
         if tag == "SOFT" and i > 0:
@@ -236,7 +287,6 @@ def run(cx):
             key = "%s | %s | %s" % (w, o["r"], re.sub(r"[0-9]+", "N", (o.get("msg") or o.get("back_msg") or ""))[:100])
             soft.setdefault(key, []).append(i)
     mism = sorted(i for i, (tag, w) in verdicts.items() if tag == "MISMATCH" and i > 0)
-    witness_ids = set(w["id"] for w in wit)
     for f, w in zip(known, wit):
         if w["id"] in mism:
             cx.report_known(f)
@@ -259,15 +309,11 @@ def run(cx):
             if len(picked.setdefault(key, [])) < 40:
                 picked[key].append(i)
         req = []
-        case_of = {c["id"]: c for c in allcases}
         for ids in picked.values():
             for i in ids:
                 req += [case_of[i], dict(case_of[i], id=i + TWICE)]
-        inp, outp = cx.path("again_cases.ndjson"), cx.path("again_obs.ndjson")
-        vlib.write_ndjson(inp, req)
-        cx.run([drv, "run", "-in", inp, "-out", outp, "-j", "1"], timeout=1500)
-        again = vlib.read_ndjson(outp)
-        again_v = judge(cx, again, "again", max(1, min(4, len(again) // 200)))
+        again = list(each(drive(cx, drv, req, "again", jobs=1)))
+        again_v = judge(cx, again, "again", max(1, min(4, len(again) // 200)), width)
         seen = set()
         for o in again:
             i = o["id"] % TWICE
@@ -297,24 +343,19 @@ def run(cx):
              "others": [{k: x[k] for k in ("t", "c", "r")} for x in items[1:6]]})
 
     # ---- evidence
-    judged = [o for o in obs if o["id"] not in witness_ids]
-    triples = set((tuple(o["t"]), o["c"] if o["r"] != "write_lit" else json.dumps(o["w"], sort_keys=True), o["r"])
-                  for o in judged)
-    outcomes = {}
-    for o in judged:
-        outcomes[o["k"]] = outcomes.get(o["k"], 0) + 1
-    for o in judged[:: max(1, len(judged) // 6)]:
-        cx.sample({"t": o["t"], "c": o["c"], "r": o["r"], "k": o["k"], "script": json.dumps(o["script"])[:200]})
+    for x in samples[:6]:
+        cx.sample(x)
     for key, ids in sorted(soft.items(), key=lambda kv: -len(kv[1]))[:10]:
         cx.notes.append("representable value rejected with an error (allowed, %d cases): %s" % (len(ids), key))
+    njudged = ncases - len(wit)
     cx.cover.update({
-        "evaluations": len(judged),
-        "distinct_nontrivial": len([1 for t in triples if nontrivial(t[0])]),
+        "evaluations": njudged,
+        "distinct_nontrivial": len([1 for t in triples if nontrivial(t[0].split(" "))]),
         "types_enumerated": ntypes,
         "type_class_pairs_law_checked": npairs,
-        "enumerated_cases": len(cases),
-        "random_deeper_cases": len(rnd),
-        "traces_validated_against_impl": len(judged),
+        "enumerated_cases": nenum,
+        "random_deeper_cases": nrnd,
+        "traces_validated_against_impl": njudged,
         "outcomes": outcomes,
         "representable_but_rejected": sum(len(v) for v in soft.values()),
         "known_finding_cases_reexecuted": nknown,
@@ -324,9 +365,9 @@ def run(cx):
         "exhaustive": True,
         "rule": "TLC enumerates every (type chain, value class, route) of the Go type algebra of Boundary.tla to constructor "
                 "depth %d (method routes to depth %d) - exhaustive for that finite space - plus %d seeded random chains of depth "
-                "3..6; each case is performed on the real boundary and its script/Go trees are judged by BoundaryCheck.tla; "
+                "3..6 and the enumerated script literals of route write_lit; each case is performed on the real boundary and its script/Go trees are judged by BoundaryCheck.tla; "
                 "non-trivial = the type has at least one constructor applied (pointer, slice, array, map, struct, interface "
-                "or a named type)" % (depth, mdepth, len(rnd)),
+                "or a named type)" % (depth, mdepth, nrnd),
     })
     cx.assumptions += [
         "Go-side equality is judged on trees in which pointers and interfaces are transparent, every integer kind is 'int' "
